@@ -83,6 +83,7 @@ func checkC02(c *core.Ctx, r *core.Report) {
 	c02BloomTwin(c, r)
 	c02NegationAndDictionaryPass(c, r)
 	c02FloatView(c, r)
+	c02ConvertedOnlyOnSuccess(c, r)
 
 	eq := core.EqualityCalls{"dtu.AlmostEquals": true, "dtypeutils.AlmostEquals": true}
 	isFop := isNamedType(pkgSutils, "FilterOperator")
@@ -190,59 +191,8 @@ func checkC02(c *core.Ctx, r *core.Report) {
 	// ---------------------------------------------------------------- (5) range-index pruning (shared with C03)
 	checkRangeFilterTables(c, r)
 
-	// ---------------------------------------------------------------- (4) dictionary scans
-	getDeTlv := c.Obj(pkgSegreader, "SegmentFileReader.GetDeTlv")
-	nScan := 0
-	for _, fn := range c.RepoFunctions() {
-		if core.FnPkgPath(fn) != core.ModPath+"/"+pkgSegread2 {
-			continue
-		}
-		calls := callsTo(fn, getDeTlv)
-		if len(calls) == 0 {
-			continue
-		}
-		loops := core.Loops(fn)
-		for _, call := range calls {
-			// the loop ranging over the result
-			var loop *core.Loop
-			for _, l := range loops {
-				for _, in := range l.Header.Instrs {
-					_ = in
-				}
-				if usesInHeaderOrBody(l, call) && (loop == nil || len(l.Body) > len(loop.Body)) {
-					loop = l
-				}
-			}
-			if loop == nil {
-				continue
-			}
-			nScan++
-			construct := shortFn(fn) + ":dictionary-scan-examines-every-word"
-			var bad ssa.Instruction
-			for _, e := range loop.ExitEdges() {
-				if e[0] == loop.Header {
-					continue
-				}
-				last := e[0].Instrs[len(e[0].Instrs)-1]
-				if ret, ok := last.(*ssa.Return); ok && core.ReturnSuccess(ret) == core.No {
-					continue // error propagation
-				}
-				if e[1] != nil {
-					// exit to a block that immediately returns an error?
-					if ret, ok := e[1].Instrs[len(e[1].Instrs)-1].(*ssa.Return); ok && core.ReturnSuccess(ret) == core.No {
-						continue
-					}
-				}
-				bad = last
-			}
-			if bad != nil {
-				r.Violation("GUARD", construct, c.Pos(firstPos(bad, call)), "the scan over the block's dictionary words can stop early: distinct words can satisfy the same filter (ERROR/error under case-insensitive match, 5 and 5.0 for a numeric literal), so the records of the remaining matching words are lost on dictionary-encoded blocks only")
-			} else {
-				r.OK("GUARD", construct, c.Pos(call.Pos()), "the only exits of the scan are exhaustion and error returns")
-			}
-		}
-	}
-	r.Floor("GUARD", "dictionary scan loops", nScan, 2)
+	// ---------------------------------------------------------------- (4) dictionary scans (shared with C03)
+	checkDictionaryScans(c, r)
 
 	// ---------------------------------------------------------------- (6) integer value vs fractional literal
 	checkWidening(c, r)
@@ -897,6 +847,7 @@ func checkC03(c *core.Ctx, r *core.Report) {
 
 	checkRangeFilterTables(c, r)
 	c02BloomTwin(c, r)
+	checkDictionaryScans(c, r)
 
 	// ---------------------------------------------------------------- (2)
 	checkTimePredicates(c, r, eq, false)
@@ -1438,5 +1389,132 @@ func checkRangeFilterTables(c *core.Ctx, r *core.Report) {
 		}
 	}
 	r.Floor("ORDERTABLE", "range-index filter tables", nFilters, 1)
+
+}
+
+// c02ConvertedOnlyOnSuccess — clause (11).  The `where` stage compares through dtypeutils.ConvertToSameType (= and !=)
+// and dtypeutils.CompareValues (the ordered operators).  The conversion helpers of that package hand back the zero
+// value next to an error; a comparison that goes on with that zero compares 0 instead of the value: `where x=0` then
+// holds for every x that could not be converted (7.5 against the integer literal 0).  In both functions every value
+// obtained from a (value, error) conversion of the package is used only where that error is known nil.
+func c02ConvertedOnlyOnSuccess(c *core.Ctx, r *core.Report) {
+	const pkg = "pkg/common/dtypeutils"
+	n := 0
+	for _, name := range []string{"ConvertToSameType", "CompareValues"} {
+		fn := c.Fn(pkg, name)
+		k := 0
+		for _, ci := range core.CallsIn(fn) {
+			call, ok := ci.(*ssa.Call)
+			if !ok {
+				continue
+			}
+			h := call.Call.StaticCallee()
+			if h == nil || core.FnPkgPath(h) != core.FnPkgPath(fn) || !strings.HasPrefix(h.Name(), "Convert") {
+				continue
+			}
+			if errv, others := errResultOf(call); errv == nil || len(others) == 0 {
+				continue
+			}
+			n++
+			k++
+			checkErrGuardedUse(c, r, "GUARD", call, fmt.Sprintf("%s#%d", h.Name(), k), "the conversion returns the zero value next to an error, and the comparison then holds for the literal 0 (or \"0\") whatever the stored value is: the `where` stage and the search clause disagree on a numeric field")
+		}
+	}
+	r.Floor("GUARD", "conversions feeding the comparisons of the where stage", n, 3)
+
+	// clause (12): the two functions (and the helpers of the package they call, other than the error-checked
+	// converters) never narrow a floating-point operand to an integer type: int64(7.5) == 7 makes `where x=7` hold
+	// for 7.5.  (The checked converters refuse a value with a fraction instead.)
+	seen := map[*ssa.Function]bool{}
+	var fns []*ssa.Function
+	for _, name := range []string{"ConvertToSameType", "CompareValues"} {
+		fn := c.Fn(pkg, name)
+		if !seen[fn] {
+			seen[fn] = true
+			fns = append(fns, fn)
+		}
+		for _, ci := range core.CallsIn(fn) {
+			if h := ci.Common().StaticCallee(); h != nil && h.Blocks != nil && !seen[h] && core.FnPkgPath(h) == core.FnPkgPath(fn) && !strings.HasPrefix(h.Name(), "Convert") {
+				seen[h] = true
+				fns = append(fns, h)
+			}
+		}
+	}
+	bad := ""
+	for _, fn := range fns {
+		for _, b := range fn.Blocks {
+			for _, in := range b.Instrs {
+				cv, ok := in.(*ssa.Convert)
+				if !ok {
+					continue
+				}
+				from, ok1 := cv.X.Type().Underlying().(*types.Basic)
+				to, ok2 := cv.Type().Underlying().(*types.Basic)
+				if ok1 && ok2 && from.Info()&types.IsFloat != 0 && to.Info()&types.IsInteger != 0 && bad == "" {
+					bad = c.Pos(cv.Pos())
+				}
+			}
+		}
+	}
+	r.Check(bad == "", "GUARD", "dtypeutils.where-comparison:no-float-operand-narrowed-to-an-integer", bad, fmt.Sprintf("%d functions behind the = / != / ordered comparisons of the where stage, no float -> integer conversion", len(fns)),
+		"a floating-point operand of a where-stage comparison is converted to an integer type: the fraction is dropped, so `where x=7` holds for a stored 7.5 and `x!=7` does not, while the search clause compares by value")
+}
+
+// checkDictionaryScans — C02 clause (4), shared with C03 (a filter's answer does not depend on the block's encoding):
+// the search of a dictionary-encoded block examines every dictionary word; the scan loops have no exit other than
+// exhaustion or an error return, since several distinct words can satisfy one filter.
+func checkDictionaryScans(c *core.Ctx, r *core.Report) {
+	getDeTlv := c.Obj(pkgSegreader, "SegmentFileReader.GetDeTlv")
+	nScan := 0
+	for _, fn := range c.RepoFunctions() {
+		if core.FnPkgPath(fn) != core.ModPath+"/"+pkgSegread2 {
+			continue
+		}
+		calls := callsTo(fn, getDeTlv)
+		if len(calls) == 0 {
+			continue
+		}
+		loops := core.Loops(fn)
+		for _, call := range calls {
+			// the loop ranging over the result
+			var loop *core.Loop
+			for _, l := range loops {
+				for _, in := range l.Header.Instrs {
+					_ = in
+				}
+				if usesInHeaderOrBody(l, call) && (loop == nil || len(l.Body) > len(loop.Body)) {
+					loop = l
+				}
+			}
+			if loop == nil {
+				continue
+			}
+			nScan++
+			construct := shortFn(fn) + ":dictionary-scan-examines-every-word"
+			var bad ssa.Instruction
+			for _, e := range loop.ExitEdges() {
+				if e[0] == loop.Header {
+					continue
+				}
+				last := e[0].Instrs[len(e[0].Instrs)-1]
+				if ret, ok := last.(*ssa.Return); ok && core.ReturnSuccess(ret) == core.No {
+					continue // error propagation
+				}
+				if e[1] != nil {
+					// exit to a block that immediately returns an error?
+					if ret, ok := e[1].Instrs[len(e[1].Instrs)-1].(*ssa.Return); ok && core.ReturnSuccess(ret) == core.No {
+						continue
+					}
+				}
+				bad = last
+			}
+			if bad != nil {
+				r.Violation("GUARD", construct, c.Pos(firstPos(bad, call)), "the scan over the block's dictionary words can stop early: distinct words can satisfy the same filter (ERROR/error under case-insensitive match, 5 and 5.0 for a numeric literal), so the records of the remaining matching words are lost on dictionary-encoded blocks only")
+			} else {
+				r.OK("GUARD", construct, c.Pos(call.Pos()), "the only exits of the scan are exhaustion and error returns")
+			}
+		}
+	}
+	r.Floor("GUARD", "dictionary scan loops", nScan, 2)
 
 }
